@@ -1847,6 +1847,95 @@ def _unroll_record_objects(trees):
         ast.fix_missing_locations(t)
 
 
+def _expand_dispatch_tables(trees):
+    """A module-level constant `D = {k1: f1, k2: f2, ...}` (literal keys, values naming module-level functions, bound once,
+    never mutated) used as a dispatch table: a whole-statement call through it - `D[K](ARGS)` directly, or `fn(ARGS)` for a
+    local `fn` bound once by `fn = D[K]` / `fn = D.get(K)` (possibly inside a conditional expression) - is the chain
+    `if K == k1: f1(ARGS) elif K == k2: f2(ARGS) ... else: <the original dynamic call>` (the final arm keeps whatever the
+    original does for a key outside the table: KeyError, calling None, ...).  The arms are then ordinary calls that the
+    helper inliner understands.  `bool(x)` keys over {True, False} test `x` itself."""
+    import copy as _copy
+
+    for t in trees:
+        tables = {}
+        funcs = {f.name for f in t.body if isinstance(f, ast.FunctionDef)}
+        for s in t.body:
+            if isinstance(s, ast.Assign) and len(s.targets) == 1 and isinstance(s.targets[0], ast.Name) and isinstance(s.value, ast.Dict) and s.value.keys and all(isinstance(k, ast.Constant) for k in s.value.keys) and all(isinstance(v, ast.Name) and v.id in funcs for v in s.value.values):
+                tables[s.targets[0].id] = [(k.value, v.id) for k, v in zip(s.value.keys, s.value.values)]
+        if not tables:
+            continue
+        bad = set()
+        for n in ast.walk(t):
+            if isinstance(n, ast.Name) and n.id in tables and isinstance(n.ctx, (ast.Store, ast.Del)):
+                bad.add(n.id) if sum(1 for m in ast.walk(t) if isinstance(m, ast.Name) and m.id == n.id and isinstance(m.ctx, (ast.Store, ast.Del))) > 1 else None
+            if isinstance(n, ast.Subscript) and isinstance(n.value, ast.Name) and n.value.id in tables and isinstance(n.ctx, (ast.Store, ast.Del)):
+                bad.add(n.value.id)
+            if isinstance(n, ast.Call) and isinstance(n.func, ast.Attribute) and isinstance(n.func.value, ast.Name) and n.func.value.id in tables and n.func.attr in ("update", "pop", "clear", "setdefault", "popitem"):
+                bad.add(n.func.value.id)
+        tables = {k: v for k, v in tables.items() if k not in bad}
+
+        def lookup(e):
+            """(table name, key expr) if e is D[K] or D.get(K) (also inside `X if c else None`)."""
+            if isinstance(e, ast.IfExp):
+                return lookup(e.body) or lookup(e.orelse)
+            if isinstance(e, ast.Subscript) and isinstance(e.value, ast.Name) and e.value.id in tables:
+                return e.value.id, e.slice
+            if isinstance(e, ast.Call) and isinstance(e.func, ast.Attribute) and e.func.attr == "get" and isinstance(e.func.value, ast.Name) and e.func.value.id in tables and len(e.args) == 1:
+                return e.func.value.id, e.args[0]
+            return None
+
+        for F in [n for n in ast.walk(t) if isinstance(n, (ast.FunctionDef, ast.AsyncFunctionDef))]:
+            binds = {}
+            for s in ast.walk(F):
+                if isinstance(s, ast.Assign) and len(s.targets) == 1 and isinstance(s.targets[0], ast.Name):
+                    lk = lookup(s.value)
+                    if lk and sum(1 for m in ast.walk(F) if isinstance(m, ast.Name) and m.id == s.targets[0].id and isinstance(m.ctx, (ast.Store, ast.Del))) == 1:
+                        binds[s.targets[0].id] = lk
+            for owner in ast.walk(F):
+                for fld in ("body", "orelse", "finalbody"):
+                    blk = getattr(owner, fld, None)
+                    if not (isinstance(blk, list) and blk and isinstance(blk[0], ast.stmt)):
+                        continue
+                    for i, st in enumerate(list(blk)):
+                        call = st.value if isinstance(st, (ast.Expr, ast.Return)) else (st.value if isinstance(st, ast.Assign) and len(st.targets) == 1 else None)
+                        if not isinstance(call, ast.Call):
+                            continue
+                        lk = None
+                        if isinstance(call.func, ast.Name) and call.func.id in binds:
+                            lk = binds[call.func.id]
+                        elif lookup(call.func) and not isinstance(call.func, ast.IfExp):
+                            lk = lookup(call.func)
+                        if lk is None:
+                            continue
+                        tname, key = lk
+                        if any(isinstance(x, (ast.Call, ast.Await, ast.NamedExpr)) for x in ast.walk(key) if not (isinstance(x, ast.Call) and isinstance(x.func, ast.Name) and x.func.id == "bool") and not (isinstance(x, ast.Call) and isinstance(x.func, ast.Attribute) and x.func.attr in ("lower", "upper", "strip") and not x.args)):
+                            continue
+                        arms = tables[tname]
+
+                        def mk(fname):
+                            c2 = _copy.deepcopy(call)
+                            c2.func = ast.Name(id=fname, ctx=ast.Load())
+                            s2 = _copy.copy(st)
+                            s2 = _copy.deepcopy(st)
+                            if isinstance(s2, (ast.Expr, ast.Return)):
+                                s2.value = c2
+                            else:
+                                s2.value = c2
+                            return s2
+
+                        boolkeys = {k for k, _ in arms} <= {True, False} and isinstance(key, ast.Call) and isinstance(key.func, ast.Name) and key.func.id == "bool" and len(key.args) == 1
+                        node = _copy.deepcopy(st)  # final arm: the original dynamic call
+                        if boolkeys and {k for k, _ in arms} == {True, False}:
+                            d = dict(arms)
+                            node = ast.If(test=_copy.deepcopy(key.args[0]), body=[mk(d[True])], orelse=[mk(d[False])])
+                        else:
+                            for k, fname in reversed(arms):
+                                node = ast.If(test=ast.Compare(left=_copy.deepcopy(key), ops=[ast.Eq()], comparators=[ast.Constant(value=k)]), body=[mk(fname)], orelse=[node])
+                        k_ = next(j for j, x in enumerate(blk) if x is st)
+                        blk[k_] = ast.fix_missing_locations(ast.copy_location(node, st))
+        ast.fix_missing_locations(t)
+
+
 def _flatten_mixins(trees):
     """A private helper base class (name starts with `_`, no rule names it, no bases of its own beyond object / ABC,
     no `__init__`, used as a base by exactly one class of the package and referenced nowhere else) is merged into that
@@ -1962,6 +2051,7 @@ class Program:
                     _strip_logging(tree)
                 parsed.append((modname, path, rel, source, tree, is_pkg))
         if self.inline_helpers:
+            _expand_dispatch_tables([t[4] for t in parsed])
             _flatten_mixins([t[4] for t in parsed])
             _inline_helpers([t[4] for t in parsed])
             _inline_module_helpers([t[4] for t in parsed])
